@@ -38,7 +38,7 @@ int __real_sem_timedwait(sem_t*, const struct timespec*);
 namespace vsched {
 namespace {
 
-const int MAXT = 24, MAXM = 256, MAXC = 256, MAXS = 256;
+const int MAXT = 128, MAXM = 256, MAXC = 256, MAXS = 256;
 enum TState { T_UNUSED = 0, T_RUNNABLE, T_BLOCKED, T_FINISHED };
 enum Wait { W_NONE = 0, W_MUTEX, W_COND, W_SEM, W_JOIN, W_SLEEP, W_ALL };
 
